@@ -900,7 +900,13 @@ def _subst_atom(a, fn, memo):
     elif k == 'dict':
         new = Term.of(Atom('dict', *[(s(kk), s(v)) for kk, v in a.args]))
     else:
-        new = Term.of(Atom(k, *[s(x) if isinstance(x, Term) else x for x in a.args]))
+        def deep(x):
+            if isinstance(x, Term):
+                return s(x)
+            if isinstance(x, tuple):
+                return tuple(deep(y) for y in x)
+            return x
+        new = Term.of(Atom(k, *[deep(x) for x in a.args]))
     na = new.single_atom()
     if na is not None:
         r = fn(na)
